@@ -119,11 +119,18 @@ class RollingWindow(Contract):
         out.append({"rank": 1, "region": True, "mode": "spacing_scalar", "adjust": "region"})
         out.append({"rank": 1, "region": True, "mode": "spacing_pair", "adjust": "spacing", "extra": 1})
         out.append({"rank": 1, "region": True, "mode": "neither", "adjust": "spacing"})
+        # a region of integers (list / tuple / integer ndarray): half a window is generally not an integer
+        out.append({"rank": 1, "region": "int", "mode": "spacing_scalar", "adjust": "spacing"})
+        out.append({"rank": 1, "region": "int_array", "mode": "shape", "adjust": "spacing"})
         return out
 
     def setup(self, B, cfg):
         coords = _coords(B, cfg["rank"], cfg.get("extra", 0), minsize=1)
         region = _region_of(B) if cfg["region"] else None
+        if cfg["region"] in ("int", "int_array"):
+            region = [B.int("r" + k) for k in "WESN"]
+            if cfg["region"] == "int_array":
+                region = as_array(region)
         shape = spacing = None
         if cfg["mode"] == "shape":
             shape = (B.int("n_north"), B.int("n_east"))
@@ -215,6 +222,13 @@ class RollingWindow(Contract):
         yield ((LE, LN), 3.0), dict(spacing=(3.5, 2.4), region=(1.0, 12.0, 3.0, 15.0), adjust="region")
         yield ((np.array([0.0, 1.0]), np.array([0.0, 1.0])), 0.5), {}
         yield ((np.array([0.0, 1.0]), np.array([0.0, 1.0])), 5.0), dict(spacing=0.5)
+        # integer regions (tuple / list / integer ndarray) and integer coordinates with window sizes whose half is fractional
+        ai = np.arange(0, 17)
+        IE, IN = np.meshgrid(ai, ai)
+        for size, region in ((3, (2, 14, 1, 15)), (5, [0, 16, 0, 16]), (2.5, np.array([1, 12, 3, 15])), (3, None)):
+            for kw in (dict(spacing=rng.choice([2, 3, 2.5])), dict(shape=(rng.randint(2, 4), rng.randint(2, 4)))):
+                cc = (IE.ravel(), IN.ravel()) if rng.random() < 0.5 else (IE, IN)
+                yield (cc, size), dict(region=region, adjust=rng.choice(["spacing", "region"]), **kw)
 
     def ensures(self, a, r):
         ok = isinstance(r, tuple) and len(r) == 2 and isinstance(r[0], tuple) and len(r[0]) == 2 and isinstance(r[1], SymArr) and r[1].kind == "O"
